@@ -80,6 +80,7 @@ def r1(ctx):
                   "_map/_flatten/_to_dict/_simplify would disagree on what the leaves of a nested tuple are")
     ctx.floor("C19.R1", n, 5, "recursive traversals of Structured")
     map_shape_preserving(ctx, "C19.R1")
+    sentinel_discipline(ctx, "C19.R1")
     # _update: later wins, everything prepared
     u = P.func(ST + "._update")
     r = returns_of(u.node)
@@ -101,6 +102,41 @@ def r1(ctx):
     ok = "merged = tuple(itertools.chain(*objects))" in t
     ctx.check(ok, "C19.R1", "_merge concatenates tuples in argument order", m.where, ctx.construct(m, text="tuple concat"),
               "tuple parts must be concatenated in order")
+
+
+def sentinel_discipline(ctx, rule: str):
+    """A parameter whose default is the MISSING sentinel may only be tested by identity with MISSING — never by truthiness
+    (0, None, (), '' and empty formulas are legitimate values)."""
+    P = ctx.project
+    n = 0
+    for f in sorted(P.functions.values(), key=lambda x: x.qualname):
+        if isinstance(f.node, ast.Lambda) or f.module.name not in ("formulaic.utils.structured", "formulaic.formula"):
+            continue  # the containers of this property (elsewhere MISSING-defaulted parameters also accept None as "absent")
+        a = f.node.args
+        pos = list(a.posonlyargs) + list(a.args)
+        defaults = dict(zip([p.arg for p in pos][len(pos) - len(a.defaults):], a.defaults))
+        defaults.update({k.arg: d for k, d in zip(a.kwonlyargs, a.kw_defaults) if d is not None})
+        sent = [p for p, d in defaults.items() if norm(d) == "MISSING"]
+        for p in sent:
+            for t in walk_no_nested(f.node):
+                tests = []
+                if isinstance(t, (ast.If, ast.While, ast.IfExp)):
+                    tests.append(t.test)
+                for test in tests:
+                    for sub in ([test] + (list(test.values) if isinstance(test, ast.BoolOp) else [])):
+                        core = sub.operand if isinstance(sub, ast.UnaryOp) and isinstance(sub.op, ast.Not) else sub
+                        if isinstance(core, ast.Name) and core.id == p:
+                            n += 1
+                            ctx.fail(rule, f"{f.qualname.replace('formulaic.', '')}: `{p}` (default MISSING) is tested by identity", f.module.line(t),
+                                     ctx.construct(f, text=f"truthiness test of {p}"),
+                                     f"`{norm(test)[:60]}` tests the sentinel-defaulted parameter by truthiness: a falsy but legitimate value (0, None, (), '', an empty formula) "
+                                     f"is treated as 'not given'")
+                        elif isinstance(core, ast.Compare) and isinstance(core.left, ast.Name) and core.left.id == p and norm(core.comparators[0]) == "MISSING":
+                            n += 1
+                            ctx.look()
+                            ctx.check(isinstance(core.ops[0], (ast.Is, ast.IsNot)), rule, f"{f.qualname.replace('formulaic.', '')}: `{p}` (default MISSING) is tested by identity",
+                                      f.module.line(t), ctx.construct(f, text=f"sentinel test of {p}"), f"`{norm(core)}` must use `is` / `is not`")
+    ctx.floor(rule, n, 5, "tests of MISSING-defaulted parameters")
 
 
 def map_shape_preserving(ctx, rule: str):
